@@ -162,24 +162,32 @@ func formatSpaces(lines []formatLine) {
 // index steps, as in foo.0 .1, since removing it would produce foo.0.1 where
 // "0.1" is a single number token rather than two separate index steps. The
 // first step's dot need not directly precede its number (a comment can sit
-// between them), so only the digits-dot-number sequence itself is examined.
+// between them), so only the number-dot-number sequence itself is examined;
+// the scanner takes any run of digits, dots and exponents as one number.
+// The same goes for an attribute name that reads as an exponent, as in
+// foo.0 .e5, where "0.e5" would be a single number token.
 func separateLegacyIndexChain(toks Tokens) {
 	for i := 0; i+2 < len(toks); i++ {
-		if toks[i].Type == hclsyntax.TokenNumberLit && isDecimalDigits(toks[i].Bytes) &&
+		if toks[i].Type == hclsyntax.TokenNumberLit &&
 			toks[i+1].Type == hclsyntax.TokenDot &&
-			toks[i+2].Type == hclsyntax.TokenNumberLit {
+			(toks[i+2].Type == hclsyntax.TokenNumberLit ||
+				(toks[i+2].Type == hclsyntax.TokenIdent && looksLikeExponent(toks[i+2].Bytes))) {
 			toks[i+1].SpacesBefore = 1
 		}
 	}
 }
 
-func isDecimalDigits(b []byte) bool {
-	for _, c := range b {
-		if c < '0' || c > '9' {
-			return false
-		}
+// looksLikeExponent reports whether an identifier starts like the exponent
+// part of a number literal: e or E, an optional sign, then a digit.
+func looksLikeExponent(b []byte) bool {
+	if len(b) < 2 || (b[0] != 'e' && b[0] != 'E') {
+		return false
 	}
-	return len(b) > 0
+	b = b[1:]
+	if (b[0] == '+' || b[0] == '-') && len(b) > 1 {
+		b = b[1:]
+	}
+	return b[0] >= '0' && b[0] <= '9'
 }
 
 func formatCells(lines []formatLine) {
